@@ -131,6 +131,14 @@ def check(ctx):
     ctx.check(app == ["components_shape.combinations_shapes.append(len(list(range(len(self._source_combinations)))))", "components_shape.independent_shapes.append(pow(len(%s), first_n))" % "list(filter(lambda l: not(self._block.is_excluded_combination({f: l})), f.levels))"]
               or (len(app) == 2 and app[0].startswith("components_shape.combinations_shapes.append(len(") and app[1].startswith("components_shape.independent_shapes.append(pow(len(")),
               R, cs, "shape fills", "one combinations entry per crossing instance, one independent entry (levels ** trials) per independent factor", "shape fills changed: %s" % app)
+    # the level list of an independent factor: what is counted is what is kept for unranking, and it is the list without excluded levels,
+    # in the full-round and in the leftover pass alike (no dependence on which pass is running)
+    kept = [str(Fc.at(x, x.value.args[0])) for x in Fc.stmts if isinstance(x, ast.Expr) and isinstance(x.value, ast.Call) and dotted(x.value.func) == "ind_factor_levels.append" and x.value.args]
+    counted = Fc.assigns("possibilities")
+    FILTERED = ("[_b0 for _b0 in f.levels if not(self._block.is_excluded_combination({f: _b0}))]", "[_b0 for _b0 in list(f.levels) if not(self._block.is_excluded_combination({f: _b0}))]")
+    ctx.check(len(kept) == 1 and len(counted) == 1 and any(kept[0] == "(f, %s)" % L and counted[0] == "pow(len(%s), first_n)" % L for L in FILTERED), R, cs, "independent levels counted = kept",
+              "the independent factor's levels without excluded ones are counted (levels ** trials) and kept for unranking, identically in every pass",
+              "the level list counted for an independent factor (%s) is not the list kept for unranking (%s), or not the list without excluded levels: keys then decode to the same sequence twice, or sequences are missed" % (counted, kept))
     body = ast.unparse(cs.node)
     ctx.check("solution_count = permutations" in body and "solution_count *= reduce(op.mul, components_shape.combinations_shapes, 1)" in body and
               "solution_count *= possibilities" in body and "possibilities = pow(len(levels), first_n)" in body and Fc.returns()[-1:] == [Fc.returns()[-1]], R, cs, "count product",
